@@ -6,6 +6,7 @@ queries, so every lazy cache is first-touched in every order.  Fault (odd seeds)
 cache-reset methods are called between two queries of other clients.
 Oracles: RefSurface per step; the same queries re-issued on a fresh instance in an independently drawn
 order; a sample of the queries issued alone on a fresh instance (the 'freshly built mesh' sentence)."""
+import numpy as np
 from sim.engine import Sim, call, canon, Violation, ViolationFound
 from sim.rng import Rng, h64
 from models.ref_surface import RefSurface, cyclic_equal
@@ -282,6 +283,47 @@ class C01(Sim):
         if q == "e2v":
             return [r.below(len(ref.edges))]
         return []
+
+    # ------------------------------------------------------------------ admissible events (replays on a shrunk world drop the others)
+    ARGKIND = {**{q: "v" for q in ("v2v", "v2f", "v2c", "v2e", "is_vertex_on_border")},
+               **{q: "c" for q in ("next", "prev", "opp", "c2he", "c2f", "cvert")},
+               **{q: "vv" for q in ("he2c", "direct_face", "direct_face_inds", "edge_to_faces", "edge_id", "is_edge_on_border")},
+               **{q: "f" for q in ("f2c", "f1c", "f2f", "f2e", "f2v", "face_id_row")},
+               "v2cif": "vf", "opposite_face": "vvf", "opposite_face_inds": "vvf", "common_edge": "ff", "in_face_index": "fv",
+               "other_edge_end": "ev", "e2v": "e"}
+
+    def applicable(self, ev):
+        q = ev["op"]
+        if q not in Q:
+            return True
+        args = ev.get("args", [])
+        ref = self.ref
+        bound = {"v": ref.nv, "f": len(ref.faces), "c": ref.nc, "e": len(ref.edges)}
+        kinds = self.ARGKIND.get(q, "v" * len(args) if q in ("face_id", "face_id_coll") else "")
+        if len(kinds) != len(args):
+            return False
+        return all(isinstance(a, (int, np.integer)) and 0 <= a < bound[k] for a, k in zip(args, kinds))
+
+    def shrink_cfgs(self, cfg):
+        """fewer faces (halves, quarters, eighths, single faces), with and without dropping the vertices no face uses any more;
+        only oriented manifold meshes - the property's domain - are proposed"""
+        from models.ref_surface import is_oriented_manifold
+        w = cfg["world"]
+        faces, pts = w["faces"], w["points"]
+        for lo, hi in surfgen.drop_chunks(len(faces)):
+            nf = faces[:lo] + faces[hi:]
+            for comp in (True, False):
+                if comp:
+                    p2, f2, m = surfgen.compact_with_map(pts, nf)
+                    if len(p2) == len(pts):
+                        continue
+                else:
+                    p2, f2, m = pts, nf, {i: i for i in range(len(pts))}
+                if not f2 or not is_oriented_manifold(len(p2), f2):
+                    continue
+                pairs = {tuple(sorted((f[j], f[(j + 1) % len(f)]))) for f in f2 for j in range(len(f))}
+                decl = [[m[a], m[b]] for a, b in w.get("declared_edges", []) if a in m and b in m and tuple(sorted((m[a], m[b]))) in pairs]
+                yield dict(cfg, world=dict(w, points=p2, faces=f2, declared_edges=decl))
 
     def propose(self, rng):
         cfg = self.cfg
